@@ -103,7 +103,7 @@ def points_from_ops(ops, mode, tier, r):
             elif full:
                 pick = sorted(set(pick + r.sample(sorted(set(ns)), min(6, len(set(ns))))))
             for n in pick:
-                for v in (["before", "flush"] if mode == "crash" and kind != "ovgene" else ["before"]):
+                for v in (["before", "flush"] if mode == "crash" and kind != "ovgene" else ["before", "term"] if mode == "crash" else ["before"]):
                     pts.append({"target": {"kind": kind, "base": base, "n": n}, "variant": v})
         else:   # h5create, h5flush, h5close
             for n in sorted(set(ns)):
@@ -245,7 +245,7 @@ def run_family(chk, mode, props_file, rule):
                     # keep every kind represented: round-robin over kinds
                     bykind = {}
                     for p in pts:
-                        bykind.setdefault(p["target"]["kind"], []).append(p)
+                        bykind.setdefault(p["target"]["kind"] + ("_term" if p.get("variant") == "term" else ""), []).append(p)
                     for l in bykind.values():
                         r.shuffle(l)
                     pick = bykind.pop("replace", [])       # every rename: these are the boundaries between the crash states
